@@ -210,6 +210,7 @@ def c02(ctx):
             ref_pairs += [pairs[rng.randrange(len(pairs))] for _ in range(k)]
         if len(ctx.samples) < 3 and n:
             ctx.sample({"system": NAME, "a": strs[0], "b": strs[-1], "go": m[n - 1], "spec": spec[n - 1][1]})
+    c02_huge(ctx)
     # tie between strings and the structures of theorem C02_maven_partial
     tie_in = mg.uniq([versions.maven_domain(rng, exclude_release_num=True) for _ in range(ctx.scale(1500, 20000))])
     fl = domain_flags(ctx, tie_in)
@@ -242,6 +243,33 @@ def c02(ctx):
         ctx.count("maven:spec-vs-jar:mismatch", len(bad))
         for a, b, sp, r in bad[:10]:
             ctx.divergence("spec_maven_vs_jar", {"a": a, "b": b, "what": "Spec/MavenSpec.v differs from the installed ComparableVersion on D_mvn"}, r, sp)
+
+
+def c02_huge(ctx):
+    """numbers at and beyond the int64 range: ComparableVersion orders them by value (BigInteger); the library
+    rejects a number >= 2^63-1 (known class F-C02-23).  Whatever it accepts must still be ordered by value."""
+    H = [b"9223372036854775805", b"9223372036854775806", b"9223372036854775807", b"9223372036854775808", b"9223372036854775809",
+         b"99999999999999999999", b"100000000000000000000"]
+    shapes = [b"%s", b"1.0.%s", b"%s.1", b"1-rc%s", b"3.1-rc-%s", b"1.%s-SNAPSHOT", b"2.%s.0"]
+    pool = sorted({sh % h for sh in shapes for h in H})
+    acc = ctx.impl("sv_parse", [sx([SYS, s]) for s in pool])
+    ok = [s for s, a in zip(pool, acc) if a.startswith('("ok"')]
+    rej = [s for s in pool if s not in ok]
+    for s in rej:
+        if any(int(t) >= 2**63 - 1 for t in __import__("re").findall(rb"[0-9]+", s)):
+            ctx.known_hits["F-C02-23"] = ctx.known_hits.get("F-C02-23", 0) + 1
+        else:
+            ctx.violation("Maven: a version of the reference grammar is rejected", {"system": NAME, "version": s})
+    pairs = [(a, b) for a in ok for b in ok]
+    got = ctx.impl("sv_syscompare", [sx([SYS, a, b]) for a, b in pairs])
+    spec = mg.model_pairs(ctx, "svm_spec_maven", pairs)
+    for (a, b), g, sp in zip(pairs, got, spec):
+        if sp[0] == b"ok" and str(sp[1]) != g:
+            ctx.violation("Maven: ordering of versions with large numbers differs from ComparableVersion (BigInteger order)",
+                          {"system": NAME, "a": a, "b": b}, observed=g, required=sp[1])
+    ctx.count("maven:c02:huge:accepted", len(ok))
+    ctx.count("maven:c02:huge:rejected(F-C02-23)", len(rej))
+    ctx.count("maven:c02:huge:pairs", len(pairs))
 
 
 # ----------------------------------------------------------------------------- C10
